@@ -56,7 +56,7 @@ ASBUILT = dict(stalectx=True, memolabel=True, freehit=True, acccap=0)     # M as
 
 
 def machine_eligible(g):
-    return "lr" not in g.tags and "throw" not in g.tags
+    return "lr" not in g.tags
 
 
 def design_level(run, groups, inputs, options, ois, max_groups, asbuilt=None, liveness=False, inputs_idx=None, label="design_model", subset=None):
@@ -434,11 +434,21 @@ def check_C14(tier, seed, replay=None):
     cfg2 = F.RandCfg(depth=depth, maxrules=3, throw=True, state=True, blocks=True)
     groups += F.random_groups(seed + 7, n // 3, cfg2, gi0=len(groups) + 1)
     inputs = F.all_inputs([F.A, F.B, X], maxlen)
-    options = [opt(), opt(maxexpr=5000)]
-    div, tot = run.execute(groups, inputs, options, budget_plan(len(inputs)), FLAGSETS_2)
+    options = [opt(), opt(maxexpr=5000), opt(debug=True)]
+    run.keep_debug = True
+    bp14 = budget_plan(len(inputs))
+
+    def plan14(g):
+        pl = bp14(g)
+        if not g.maydiverge and g.gi % 3 == 0:
+            pl = pl + [(ii, 2) for ii in range(0, len(inputs), 2)]     # Debug(true): the T2 traces
+        return pl
+    div, tot = run.execute(groups, inputs, options, plan14, FLAGSETS_2)
+    design_level(run, groups, inputs, options, lambda g: [0], 400 if tier == "quick" else 5000)
+    t2_bind(run, 1500 if tier == "quick" else 15000)
     # the same semantics must hold for parsers generated with -optimize-grammar (values compared after normalisation)
     run_o = Run("C14", tier, seed)
-    d_o, tot_o = run_o.execute(groups, inputs, options, budget_plan(len(inputs)), [["-optimize-grammar"]], cmp=dict(norm=True, errs=False),
+    d_o, tot_o = run_o.execute(groups, inputs, options, bp14, [["-optimize-grammar"]], cmp=dict(norm=True, errs=False),
                                gen_flags_for=lambda pk: ["-alternate-entrypoints", ",".join(g.sname() for g in pk)])
     for d in d_o:
         run.violation(run_o.replay_path(d), "-optimize-grammar: df=%s gi=%d ii=%d" % (d["df"], d["gi"], d["ii"]))
